@@ -232,3 +232,108 @@ Print Assumptions C19_text_to_table_regular.
 Print Assumptions C19_canvas_total.
 Print Assumptions C19_canvas_total_grid.
 Print Assumptions C19_canvas_nonvacuous.
+
+(* ================================================================== characters -> plane for drawings with MERGED cells, owner: ext-merged.
+   Drawing: C19/CanvasMerged.v.  A merged drawing `mdraw` is a grid (grid columns of any inner widths from 1, grid lines of any inner
+   heights from 1: a grid line holds one or more lines of text) tiled by rectangular merged cells (`md_reg i j` = the merged cell of
+   grid cell (i, j)); a separator is drawn exactly between grid cells of different merged cells; the text of a merged cell is a block
+   of characters without box characters that fills its whole inside; double vertical lines in front of the grid columns md_v1 / md_v2,
+   double horizontal lines above the grid lines md_h1 / md_h2.  `drawm` makes the text with the junction conventions of
+   props/c19draw.py (every run checks that drawm reproduces the drawings of c19draw character by character and that canvas.rs builds
+   `mplane` from them), `mplane` is the plane: every grid cell with the NUMBER (merged cells numbered by their first grid cells in
+   the order of the lines), the RECTANGLE and the TEXT of its merged cell, the cells of the double lines, the lines of the crossings.
+   `wf_mdraw` (boolean): the tiling is a tiling, the texts fit, the double lines run through the whole drawing, between two double
+   crossings the double line is crossed by full separators only, every separator of the grid is drawn somewhere.
+   This covers the output label over several output columns, input expressions / annotation names / the hit-policy cell over several
+   header lines, merged input entries, cells with several lines of text, and rules as columns. *)
+From DV Require Import C19.CanvasMerged C19.CanvasMergedGeom C19.CanvasMergedScan C19.CanvasMergedPlane.
+
+(* the text splits back into the grid of characters (TM d = the grid followed by the extra last line of the Rust canvas) *)
+Theorem C19_scan_layers_merged : forall d, wf_mdraw d = true -> scan_layers (drawm d) = (TM d, BM d).
+Proof. exact scan_layers_merged. Qed.
+
+(* the passes of `scan`: no information item name, the main crossing at the first double cross (X v1, Y h1), the second crossing to the
+   right (annotations, rules as rows) and / or below (annotations, rules as columns) exactly when drawn, the body rectangle = the whole
+   drawing, THIN = BODY = the drawing with single lines and blanked texts (THM d), GRID = the FULL grid, every separator drawn over its
+   whole length (GM d: make_grid really adds the missing pieces) *)
+Theorem C19_canvas_scan_merged : forall d, wf_mdraw d = true ->
+  scan_from (TM d) (BM d) = Ok (merged_canvas d) /\
+  cv_name (merged_canvas d) = None /\ cv_rect (merged_canvas d) = (0, 0, MW d, MH d) /\
+  cv_cross (merged_canvas d) = (X (md_ws d) (md_v1 d), X (md_hs d) (md_h1 d)) /\
+  cv_horz (merged_canvas d) = option_map (fun k => (X (md_ws d) k, X (md_hs d) (md_h1 d))) (md_v2 d) /\
+  cv_vert (merged_canvas d) = option_map (fun k => (X (md_ws d) (md_v1 d), X (md_hs d) k)) (md_h2 d) /\
+  cv_thin (merged_canvas d) = THM d /\ cv_body (merged_canvas d) = THM d /\ cv_grid (merged_canvas d) = GM d /\
+  GM d = TL (md_hs d) (md_ws d) (fun _ _ => true) (fun _ _ => true).
+Proof. intros d Hwf. split; [now apply scan_merged|]. repeat split. Qed.
+
+(* for every grid cell: the region walk on THIN from the first grid cell of its merged cell closes on the frame of the merged cell, the
+   rectangle walk on GRID closes on the frame of the grid cell, the text read from the frame of the merged cell is its block of text *)
+Theorem C19_canvas_cells_merged : forall d i j r0 c0 r1 c1, wf_mdraw d = true -> i < mrows d -> j < mcols d ->
+  md_reg d i j = (r0, c0, r1, c1) ->
+  recognize_region (THM d) (X (md_ws d) c0, X (md_hs d) r0) = Ok (mrect d (r0, c0, r1, c1)) /\
+  recognize_rectangle (GM d) (X (md_ws d) j, X (md_hs d) i) = Ok (mrect d (i, j, S i, S j)) /\
+  text_from_rect (TM d) (mrect d (r0, c0, r1, c1)) = Ok (text_rows (md_txt d r0 c0) false).
+Proof.
+  intros d i j r0 c0 r1 c1 Hwf Hi Hj E. split; [now apply (region_walk d Hwf i j)|]. split; [now apply rectangle_walk|now apply (text_walk d Hwf i j)].
+Qed.
+
+(* HEADLINE for merged drawings: text -> plane for EVERY well-formed merged drawing *)
+Theorem C19_draw_roundtrip_merged : forall code d, wf_mdraw d = true ->
+  canvas_cplane (drawm d) = Ok (None, mplane d) /\
+  canvas_to_plane code (drawm d) = Some (map (map (abs_cell code)) (mplane d)).
+Proof. exact draw_roundtrip_merged. Qed.
+
+(* ================================================================== text -> table with one, two or three header lines (C19/CanvasHeadersDraw.v, CanvasHeaders.v).
+   The plane-level recogniser looks at the names of the regions only to compare a header cell with the cell below it; so two planes with
+   the same cells up to names and the same partition of the h header lines into regions (`same_partition`: erased planes equal, and for
+   every header line above line h the same pattern "this cell and the cell below are one region") are recognised alike *)
+From DV Require Import C19.CanvasPartition C19.CanvasHeadersDraw C19.CanvasHeaders C19.CanvasHeadersSweep.
+
+Theorem C19_recognize_plane_same_partition : forall parse_hp parse_num p q hp n px h,
+  same_partition h p q -> orientation parse_hp parse_num p = Some (AsRow, hp, n) -> find_plane is_main (tails p) = Some (px, h) ->
+  recognize_plane parse_hp parse_num q = recognize_plane parse_hp parse_num p.
+Proof. exact recognize_plane_partition. Qed.
+
+(* text -> table END TO END for every rules-as-rows table drawn with ONE, TWO or THREE header lines (`htable`: optional output label
+   line over all output columns - several outputs -, the line of input expressions and component names, optional allowed-values line;
+   the hit-policy cell and the annotation names span all header lines, an input expression spans the label line and the name line; any
+   numbers of inputs / outputs / annotations / rules, any column widths and line heights from 1, every text a block of one or more
+   lines without box characters, any alignment): the plane built from the characters is recognised as rules-as-rows with the drawn hit
+   policy, the drawn number of rules and exactly the fields of the drawn table - input expressions, allowed input values, output label,
+   component names, allowed output values, annotation names, all rule entries - for any coding of texts and any text parsers that read
+   the hit-policy cell and the number cell of the k-th rule (k from 0) as S k.  `wf_htable s` (boolean) = the merged drawing of s is
+   well formed (wf_mdraw), the grid has one column per marker / input / output / annotation and one line per header line / rule, at
+   least one input, output and rule, one entry per column in every rule *)
+Theorem C19_text_to_table_headers : forall code s, wf_htable s = true ->
+  forall parse_hp parse_num hp, parse_hp (bc code (ht_hp s)) = Some hp ->
+  (forall k n i o a, nth_error (ht_rules s) k = Some (n, i, o, a) -> parse_num (bc code n) = Some (S k)) ->
+  exists p, canvas_to_plane code (drawm (header_drawing s)) = Some p /\
+            recognize_plane parse_hp parse_num p = Some (AsRow, hp, h_nr s, fields_of (abs_htable s code)).
+Proof. exact text_to_table_headers. Qed.
+
+(* the hypotheses are met by a drawing with an OUTPUT LABEL OVER TWO OUTPUT COLUMNS, ALLOWED VALUES (three header lines), an
+   annotation and two rules (hsample, picture in C19/CanvasHeadersSweep.v) and by a one-header-line table with a two-line header
+   (hsample1); the conclusions are recomputed by vm_compute (hplane_ok: text -> plane = mplane; htable_ok: text -> table); the second
+   and third text lines of hsample show the label cell without a separator inside and the input expression cells continuing below the
+   label line; the label and both component names and output values are among the recognised fields *)
+Example C19_headers_nonvacuous :
+  wf_htable hsample = true /\ hplane_ok hsample = true /\ htable_ok hsample = true /\ parsers_ok hsample = true /\
+  wf_htable hsample1 = true /\ hplane_ok hsample1 = true /\ htable_ok hsample1 = true /\ parsers_ok hsample1 = true /\
+  h_hdr hsample = 3 /\ h_hdr hsample1 = 1 /\ mcols (header_drawing hsample) = 6 /\ mrows (header_drawing hsample) = 5 /\
+  length (drawm (header_drawing hsample)) = 352 /\
+  hsample_line 1 = [9474; 32; 85; 32; 9474; 65; 97; 32; 32; 9474; 65; 98; 32; 32; 9553; 76; 66; 32; 32; 32; 32; 32; 32; 32; 9553; 67; 97; 32; 32; 32; 9474]%N /\
+  hsample_line 2 = [9474; 32; 32; 32; 9474; 32; 32; 32; 32; 9474; 32; 32; 32; 32; 9567; 9472; 9472; 9472; 9472; 9516; 9472; 9472; 9472; 9472; 9570; 32; 32; 32; 32; 32; 9474]%N /\
+  md_reg (header_drawing hsample) 0 3 = (0, 3, 1, 5) /\ md_reg (header_drawing hsample) 0 4 = (0, 3, 1, 5) /\
+  md_reg (header_drawing hsample) 1 1 = (0, 1, 2, 2) /\ md_reg (header_drawing hsample) 2 0 = (0, 0, 3, 1) /\
+  f_label (fields_of (abs_htable hsample CanvasSweep.code)) = Some (CanvasSweep.code (pad_to 9 [76; 66]%N)) /\
+  length (f_components (fields_of (abs_htable hsample CanvasSweep.code))) = 2 /\
+  length (f_output_values (fields_of (abs_htable hsample CanvasSweep.code))) = 2.
+Proof. exact headers_sweep. Qed.
+
+Print Assumptions C19_scan_layers_merged.
+Print Assumptions C19_canvas_scan_merged.
+Print Assumptions C19_canvas_cells_merged.
+Print Assumptions C19_draw_roundtrip_merged.
+Print Assumptions C19_recognize_plane_same_partition.
+Print Assumptions C19_text_to_table_headers.
+Print Assumptions C19_headers_nonvacuous.
